@@ -185,7 +185,11 @@ func (h *histGen) op() string {
 		if r.Intn(3) == 0 {
 			md = fb(float64(r.Intn(12)) / 2)
 		}
-		return fmt.Sprintf("k %s %d %d %d %s", fpt(h.pt()), r.Intn(6), m, r.Intn(m), md)
+		k := r.Intn(6)
+		if r.Intn(12) == 0 { // large k: more than the tree holds, heaps beyond any small-size fast path
+			k = []int{16, 63, 64, 65, 100, 300}[r.Intn(6)]
+		}
+		return fmt.Sprintf("k %s %d %d %d %s", fpt(h.pt()), k, m, r.Intn(m), md)
 	default:
 		a, b := h.pt(), h.pt()
 		if a[0] > b[0] {
